@@ -113,11 +113,11 @@ def run(F, rep):
     back_rules(F, rep)
 
 
-def back_rules(F, rep):
+def back_rules(F, rep, pid="C09"):
     """C09-BACK: the backward-extension budget.  The encoder pops `len_bck` bytes off its output before a match,
     which is only sound when those bytes are single-byte literal records: the budget handed to the matcher must
     never count bytes that belong to a multi-byte record (N-run or match)."""
-    R = "C09-BACK"
+    R = pid + "-BACK"
     enc = F.funcs.get(LZ + "encode")
     fm = F.funcs.get(LZ + "find_best_match_lp")
     lit = F.funcs.get(LZ + "encode_literal")
